@@ -24,6 +24,18 @@ def write_if_changed(path, text):
     with open(path, 'w') as f: f.write(text)
     return True
 
+_run_impl = run_impl
+def run_impl(ctx, exe, casefile, timeout=1800, env=None):
+    """the shared library may be relinked by another check while the harness starts: retry when it could not be loaded"""
+    for attempt in range(6):
+        rc, res = _run_impl(ctx, exe, casefile, timeout=timeout, env=env)
+        if res: return rc, res
+        try: log = open(casefile + '.impl.log').read()
+        except OSError: log = ''
+        if 'error while loading shared libraries' not in log and 'cannot open shared object' not in log: return rc, res
+        time.sleep(10)
+    return rc, res
+
 def vals_close(a, b, tol=1e-11):
     """(status payload) pairs from the harness: status 0 ok / 1 empty-or-null / 2 crash; payload list of dyadics (dims first for matrices)"""
     if a[0] != b[0]: return False
